@@ -76,12 +76,15 @@ fn mk_opts(hashes: bool, human: bool, unknown: bool) -> GitAiBlameOptions {
     GitAiBlameOptions { line_ranges: vec![], newest_commit: None, oldest_commit: None, oldest_date: None, porcelain: false, line_porcelain: false, incremental: false, show_name: false, show_number: false, show_email: false, suppress_author: false, show_stats: false, long_rev: false, raw_timestamp: false, abbrev: None, blank_boundary: false, show_root: false, detect_moves: false, detect_copies: 0, move_threshold: None, ignore_revs: vec![], ignore_revs_file: None, no_ignore_revs_file: false, color_lines: false, color_by_age: false, progress: false, date_format: None, contents_file: None, reverse: None, first_parent: false, encoding: None, contents_data: None, use_prompt_hashes_as_names: hashes, return_human_authors_as_human: human, no_output: false, ignore_whitespace: false, json: false, mark_unknown: unknown, show_prompt: false, split_hunks_by_ai_author: true }
 }
 fn mk_hunk(r: (u32, u32), o: u32) -> BlameHunk {
-    BlameHunk { range: r, orig_range: (o, o + (r.1 - r.0)), commit_sha: "c0ffee".into(), abbrev_sha: "c0ffee".into(), original_author: "alice".into(), author_email: "a@x".into(), author_time: 0, author_tz: "+0000".into(), ai_human_author: None, committer: "alice".into(), committer_email: "a@x".into(), committer_time: 0, committer_tz: "+0000".into(), is_boundary: false }
+    BlameHunk { range: r, orig_range: (o, o + (r.1 - r.0)), commit_sha: "c0ffee".into(), abbrev_sha: "c0ffee".into(), original_author: "alice".into(), author_email: "a@x".into(), author_time: 0, author_tz: "+0000".into(), ai_human_author: None, committer: "alice".into(), committer_email: "a@x".into(), committer_time: 0, committer_tz: "+0000".into(), is_boundary: false, filename: String::new() }
 }
-fn chk_overlay(c: &mut Ctx, n: Option<&Note>, file: &str, range: (u32, u32), orig0: u32, flags: (bool, bool, bool)) {
+/// `hpath`: the path git reports for the hunk (the `filename` line of the blame group), "" when none - the note must be searched
+/// under THAT path (the path the file had in the originating commit), under the command-line path `file` only when it is empty
+fn chk_overlay(c: &mut Ctx, n: Option<&Note>, file: &str, hpath: &str, range: (u32, u32), orig0: u32, flags: (bool, bool, bool)) {
     c.evaluated += 1;
-    let input = format!("{} @ {} range {}-{} orig {} flags {}{}{}", n.map(show_note).unwrap_or("NONE".into()), file, range.0, range.1, orig0, flags.0 as u8, flags.1 as u8, flags.2 as u8);
-    let hunk = mk_hunk(range, orig0);
+    let input = format!("{} @ {} range {}-{} orig {} flags {}{}{}", n.map(show_note).unwrap_or("NONE".into()), file, range.0, range.1, orig0, flags.0 as u8, flags.1 as u8, flags.2 as u8) + &format!(" path {}", if hpath.is_empty() { "-" } else { hpath });
+    let mut hunk = mk_hunk(range, orig0); hunk.filename = hpath.to_string();
+    let note_path = if hpath.is_empty() { file } else { hpath };
     let opts = mk_opts(flags.0, flags.1, flags.2);
     let repo = Repository { _opaque: () };
     let mut before: HashMap<u32, String> = HashMap::new();
@@ -95,7 +98,7 @@ fn chk_overlay(c: &mut Ctx, n: Option<&Note>, file: &str, range: (u32, u32), ori
             for l in range.0..=range.1 {
                 let want = match n {
                     None => if flags.2 { "Unknown".to_string() } else if flags.1 { "human".to_string() } else { "alice".to_string() },
-                    Some(n) => match o_session(n, file, orig0 + (l - range.0)) {
+                    Some(n) => match o_session(n, note_path, orig0 + (l - range.0)) {
                         Some(h) => if flags.0 { h } else { tool_of(&h).to_string() },
                         None => if flags.1 { "human".to_string() } else { "alice".to_string() },
                     },
@@ -163,8 +166,9 @@ fn main() {
             if want("region_ov_hunk") {
                 let lo = 1 + g.below(6) as u32; let range = (lo, lo + g.below(4) as u32); let orig0 = 1 + g.below(8) as u32;
                 let flags = (g.below(2) == 0, g.below(2) == 0, g.below(2) == 0);
-                chk_overlay(&mut c, Some(&n), ["a.rs", "b.rs", "c.rs"][g.below(3) as usize], range, orig0, flags);
-                if g.below(4) == 0 { chk_overlay(&mut c, None, "a.rs", range, orig0, flags); }
+                let hpath = ["", "a.rs", "b.rs", "c.rs"][g.below(4) as usize];
+                chk_overlay(&mut c, Some(&n), ["a.rs", "b.rs", "c.rs"][g.below(3) as usize], hpath, range, orig0, flags);
+                if g.below(4) == 0 { chk_overlay(&mut c, None, "a.rs", hpath, range, orig0, flags); }
             }
         }
     } else {
@@ -184,7 +188,8 @@ fn main() {
         else {
             let (ra, rb) = w[2].split_once('-').unwrap(); let fl: Vec<bool> = w[6].chars().map(|ch| ch == '1').collect();
             let note = if note_s == "NONE" { None } else { Some(parse_note(note_s)) };
-            chk_overlay(&mut c, note.as_ref(), w[0], (ra.parse().unwrap(), rb.parse().unwrap()), w[4].parse().unwrap(), (fl[0], fl[1], fl[2]));
+            let hpath = if w.len() > 8 && w[8] != "-" { w[8] } else { "" };   // optional trailing `path <hunk path|->`
+            chk_overlay(&mut c, note.as_ref(), w[0], hpath, (ra.parse().unwrap(), rb.parse().unwrap()), w[4].parse().unwrap(), (fl[0], fl[1], fl[2]));
         }
     }
     println!("DONE evaluated={}", c.evaluated);
